@@ -259,7 +259,7 @@ class PktGen:
         name = self.fresh()
         elem = self.gen_elem()
         f = {"k": "seq", "name": name, "elem": elem, "count": None, "until": None, "when": None, "aligned": None}
-        if chance(d, 0.65):
+        if chance(d, 1.0 - self.prof.get("until_p", 0.35)):
             t = d(st.integers(0, 3))
             if t == 0:
                 f["count"] = ["const", d(st.integers(0, 4))]
@@ -276,7 +276,7 @@ class PktGen:
             t = d(st.integers(0, 2))
             if t == 0 or (elem["k"] not in ("int", "ref", "data")):
                 u = ["bin", "ge", ["un", "len", me], ["c", d(st.integers(1, 4))]]
-                if chance(d, 0.3):
+                if chance(d, 0.5):
                     # elements that may consume no byte at all: the list must still grow until the condition holds
                     elem = {"k": "data", "name": "_", "incl": False, "size": ["const", 0] if chance(d, 0.4) else ["field", self.control()]}
                     f["elem"] = elem
